@@ -417,7 +417,11 @@ func c08Fill(rng *rand.Rand, v reflect.Value, depth int, types []reflect.Type) {
 		for i := 0; i < n; i++ {
 			e := reflect.New(t.Elem()).Elem()
 			c08Fill(rng, e, depth-1, types)
-			m.SetMapIndex(reflect.ValueOf([]string{"k", "a", "zz"}[i]).Convert(t.Key()), e)
+			key := reflect.ValueOf([]string{"k", "a", "zz"}[i])
+			if t.Key().Kind() != reflect.String {
+				key = reflect.ValueOf(i + 1) // integer keys
+			}
+			m.SetMapIndex(key.Convert(t.Key()), e)
 		}
 		v.Set(m)
 	case reflect.Interface:
